@@ -1157,6 +1157,105 @@ fn crypto(out: &mut Out, rng: &mut Rng, thorough: bool) {
 			}
 		}
 	}
+	// ---- proof-builder corners: the root key (depth 0, all-zero path: with switch None the 20-byte
+	// proof message is ALL ZERO and is a valid message), depth 0 / 1 / 2 / 3 with non-zero unused
+	// words, depth 3 with a non-zero 4th word (the legacy builder drops depth and switch), all-zero
+	// words at depth 3 and 4; amounts 0, 1, 2^64-1; both switch modes; both builder generations and
+	// the root view key; the same seed must recover exactly what the builder's message logic says,
+	// another seed / the other generation / another seed's view key must recover nothing
+	{
+		let mut corner_stat: std::collections::BTreeMap<String, u64> = Default::default();
+		let mut zero_msgs = 0u64;
+		for ci in 0..(if thorough { 3 } else { 1 }) {
+			let seed = rng.bytes(32);
+			let is_test = ci == 0;
+			let keychain = ExtKeychain::from_seed(&seed, is_test).unwrap();
+			let other = ExtKeychain::from_seed(&rng.bytes(32), is_test).unwrap();
+			let nb = ProofBuilder::new(&keychain);
+			let lb = LegacyProofBuilder::new(&keychain);
+			let onb = ProofBuilder::new(&other);
+			let olb = LegacyProofBuilder::new(&other);
+			let mut hasher = keychain.hasher();
+			let vk0 = ViewKey::create(&keychain, keychain.master.clone(), &mut hasher, is_test).unwrap();
+			let mut ohasher = other.hasher();
+			let ovk0 = ViewKey::create(&other, other.master.clone(), &mut ohasher, is_test).unwrap();
+			let ids: Vec<Identifier> = vec![
+				ExtKeychain::root_key_id(),
+				ExtKeychain::derive_key_id(0, 1, 2, 3, 4),
+				ExtKeychain::derive_key_id(0, 0, 0, 0, 0xffff_ffff),
+				ExtKeychain::derive_key_id(1, 7, 0, 0, 0),
+				ExtKeychain::derive_key_id(1, 7, 5, 6, 7),
+				ExtKeychain::derive_key_id(2, 7, 8, 0, 0),
+				ExtKeychain::derive_key_id(2, 7, 8, 9, 1),
+				ExtKeychain::derive_key_id(3, 1, 2, 3, 0),
+				ExtKeychain::derive_key_id(3, 1, 2, 3, 5),
+				ExtKeychain::derive_key_id(3, 1, 2, 3, 0xffff_ffff),
+				ExtKeychain::derive_key_id(3, 0, 0, 0, 0),
+				ExtKeychain::derive_key_id(3, 0, 0, 0, 9),
+				ExtKeychain::derive_key_id(4, 0, 0, 0, 0),
+				ExtKeychain::derive_key_id(4, 1, 2, 3, 4),
+			];
+			for id in &ids {
+				let idh = hex(&id.to_bytes());
+				for sw in SWITCHES.iter() {
+					let m_new = nb.proof_message(keychain.secp(), id, *sw).unwrap();
+					let m_leg = lb.proof_message(keychain.secp(), id, *sw).unwrap();
+					out.line(&format!("keys msg new {} {}", idh, sw_name(*sw)), &hex(m_new.as_bytes()));
+					out.line(&format!("keys msg legacy {} {}", idh, sw_name(*sw)), &hex(m_leg.as_bytes()));
+					if m_new.as_bytes().iter().all(|b| *b == 0) {
+						zero_msgs += 1;
+					}
+					for amount in [0u64, 1, u64::MAX].iter() {
+						let c1 = keychain.commit(*amount, id, *sw).unwrap();
+						for kind in ["new", "legacy"].iter() {
+							let is_new = *kind == "new";
+							let proof = match catch(AssertUnwindSafe(|| if is_new {
+								proof::create(&keychain, &nb, *amount, id, *sw, c1, None)
+							} else {
+								proof::create(&keychain, &lb, *amount, id, *sw, c1, None)
+							})) {
+								Ok(Ok(p)) => p,
+								other => {
+									out.raw(&format!("#ORACLE-FAIL C20 corners: proof::create ({}) fails for id={} sw={} amount={}: {:?}", kind, idh, sw_name(*sw), amount, other.map(|r| r.map(|_| ()))));
+									continue;
+								}
+							};
+							proofs += 1;
+							let v = proof::verify(&secp_v, c1, proof, None).is_ok();
+							out.line(&format!("keys verify {} {} {} {}", kind, idh, sw_name(*sw), amount), &v.to_string());
+							let r = if is_new {
+								rewind_str(catch(AssertUnwindSafe(|| proof::rewind(&secp_v, &nb, c1, None, proof))))
+							} else {
+								rewind_str(catch(AssertUnwindSafe(|| proof::rewind(&secp_v, &lb, c1, None, proof))))
+							};
+							*corner_stat.entry(format!("{} depth={} sw={}: {}", kind, id.to_bytes()[0], sw_name(*sw), r.split(' ').next().unwrap())).or_insert(0) += 1;
+							out.line(&format!("keys rewind {} {} {} {}", kind, idh, sw_name(*sw), amount), &r);
+							let r = if is_new {
+								rewind_str(catch(AssertUnwindSafe(|| proof::rewind(&secp_v, &onb, c1, None, proof))))
+							} else {
+								rewind_str(catch(AssertUnwindSafe(|| proof::rewind(&secp_v, &olb, c1, None, proof))))
+							};
+							out.line(&format!("keys rewind_other {} {} {} {}", kind, idh, sw_name(*sw), amount), &r);
+							let r = if is_new {
+								rewind_str(catch(AssertUnwindSafe(|| proof::rewind(&secp_v, &lb, c1, None, proof))))
+							} else {
+								rewind_str(catch(AssertUnwindSafe(|| proof::rewind(&secp_v, &nb, c1, None, proof))))
+							};
+							out.line(&format!("keys rewind_other {}-by-other-generation {} {} {}", kind, idh, sw_name(*sw), amount), &r);
+							if is_new {
+								let r = rewind_str(catch(AssertUnwindSafe(|| proof::rewind(&secp_v, &vk0, c1, None, proof))));
+								*corner_stat.entry(format!("view depth={} sw={} amount={}: {}", id.to_bytes()[0], sw_name(*sw), amount_class(*amount), r.split(' ').next().unwrap())).or_insert(0) += 1;
+								out.line(&format!("keys rewind view {} {} {}", idh, sw_name(*sw), amount), &r);
+								let r = rewind_str(catch(AssertUnwindSafe(|| proof::rewind(&secp_v, &ovk0, c1, None, proof))));
+								out.line(&format!("keys rewind_other view {} {} {}", idh, sw_name(*sw), amount), &r);
+							}
+						}
+					}
+				}
+			}
+		}
+		out.raw(&format!("#STAT crypto corners: all-zero proof messages (root key, switch None) seen={}; outcomes {:?}", zero_msgs, corner_stat));
+	}
 	out.raw(&format!("#STAT crypto seeds={} cases={} bulletproofs created={}", n_seeds, n_seeds * per_seed, proofs));
 	out.raw(&format!("#STAT crypto distribution={:?}", stat));
 
